@@ -155,10 +155,14 @@ func main() {
 	}
 	// values loaded once and then used by every goroutine: a returned *meta.Data / *icc.Profile is read-only
 	// as far as its users can tell, so concurrent use of its accessors must be safe
+	// (only in the scenario "shared-values": in "loaders" every goroutine's loads are the first the process makes,
+	// so that whatever the library sets up on first sight of a file or profile is set up concurrently)
 	var sharedMD []*meta.Data
-	for _, b := range seedBytes {
-		if md, _, err := autometa.Load(bytes.NewReader(b)); err == nil && md != nil {
-			sharedMD = append(sharedMD, md)
+	if *scenario == "shared-values" {
+		for _, b := range seedBytes {
+			if md, _, err := autometa.Load(bytes.NewReader(b)); err == nil && md != nil {
+				sharedMD = append(sharedMD, md)
+			}
 		}
 	}
 	loaderJob := func(g int) []res {
@@ -279,7 +283,7 @@ func main() {
 		for g := 0; g < *n; g++ {
 			jobs = append(jobs, imageJob(true))
 		}
-	case "loaders":
+	case "loaders", "shared-values":
 		for g := 0; g < *n; g++ {
 			jobs = append(jobs, loaderJob)
 		}
